@@ -148,6 +148,8 @@ def gen(repo):
     t += "def unusedOptionFields : List String := [%s]\n" % ", ".join(lean_str(x) for x in unused)
     t += "/-- the `ent == \"...\"` chain of `decodeEntities` in source order: (name, byte pushed) -/\n"
     t += "def entityTable : List (String × Nat) := %s\n" % lean_str_nat_list(ents)
+    t += "/-- the same chain with the names as byte values (what the model's lookup uses) -/\n"
+    t += "def entityBytes : List (List Nat × Nat) := [%s]\n" % ", ".join("(%s, %d)" % (lean_nat_list(list(n.encode())), c) for n, c in ents)
     t += "/-- bytes `skipSpaces` treats as white space -/\n"
     t += "def whitespace : List Nat := %s\n" % lean_nat_list(ws)
     t += "/-- `isNameStart`: single characters and inclusive ranges; `isNameChar` adds these singles and ranges -/\n"
